@@ -74,6 +74,27 @@ class StartTaskHandler(StabilizeHandler[StartTask]):
         """Inner handle logic to be retried."""
 
         def on_task(stage: StageExecution, task_model: TaskExecution) -> None:
+            # A StartTask is only ever pushed for a RUNNING stage. If the stage is
+            # NOT_STARTED it was re-armed by a jump after this message was queued:
+            # the message belongs to the previous loop iteration. Starting the task
+            # now would run it before the stage starts, and leave the stage stuck
+            # RUNNING later (task already complete, the real StartTask ignored).
+            if stage.status == WorkflowStatus.NOT_STARTED:
+                logger.debug(
+                    "Ignoring stale StartTask for %s (%s) - stage %s was re-armed",
+                    task_model.name,
+                    task_model.id,
+                    stage.name,
+                )
+                if message.message_id:
+                    with self.repository.transaction(self.queue) as txn:
+                        txn.mark_message_processed(
+                            message_id=message.message_id,
+                            handler_type="StartTask",
+                            execution_id=message.execution_id,
+                        )
+                return
+
             # Idempotency check - only start tasks that are NOT_STARTED
             if task_model.status != WorkflowStatus.NOT_STARTED:
                 logger.debug(
